@@ -1,4 +1,4 @@
-//! Names of the steel-core hook sites (filled in with the steel-core hooks).
+//! Names of the steel-core hook sites.
 pub fn name(site: u32) -> String {
-    format!("{}", site)
+    steel::verif::site_name(site).to_string()
 }
